@@ -1130,6 +1130,10 @@ static bool _advance_parsing(binson_parser *parser, uint8_t scan_flags, bbuf *sc
                     state->array_depth--;
                     parser->buffer_used += 1;
 
+                    if (state->array_depth > 0) {
+                        state->flags = BINSON_STATE_IN_ARRAY_1;
+                    }
+
                     if (state->array_depth == 0) {
                         state->flags = BINSON_STATE_IN_OBJ_EXPECTING_FIELD;
                         if (parser->type == BINSON_PTYPE_ARRAY && parser->depth == 1) {
